@@ -2,16 +2,16 @@
 # tools/seed_batch.sh "C01:m1:C01,C04" ...   -> runs seed_check for each, 4 at a time, summary lines to stdout
 run_one() {
   id=$(echo "$1" | cut -d: -f1); m=$(echo "$1" | cut -d: -f2); checks=$(echo "$1" | cut -d: -f3)
-  /verif/tools/seed_check.py /tmp/seedwt/$id/SEED/$m $id-$m --checks "$checks" > /tmp/seedwt/$id-$m.result.json 2>&1
+  /verif/tools/seed_check.py ${SEEDROOT:-/tmp/seedwt}/$id/SEED/$m $id-$m --checks "$checks" ${NOSUITE:+--no-suite} > /tmp/seedres/$id-$m.result.json 2>&1
   python3 - "$id-$m" <<'PY'
 import sys, json
 n = sys.argv[1]
 try:
-    d = json.load(open('/tmp/seedwt/%s.result.json' % n))
+    d = json.load(open('/tmp/seedres/%s.result.json' % n))
     print(n, "valid=%s" % d.get('valid'), "suite=%s" % d.get('stable_suite_patched'), [(r['check'], r['verdict']) for r in d['ran']],
           "demo:", d.get('demo_unpatched', {}).get('exit'), d.get('demo_patched', {}).get('exit'))
 except Exception as e:
-    print(n, "ERROR", e, open('/tmp/seedwt/%s.result.json' % n).read()[-300:])
+    print(n, "ERROR", e, open('/tmp/seedres/%s.result.json' % n).read()[-300:])
 PY
 }
 i=0
